@@ -524,6 +524,34 @@ def check_prefix(ctx: Ctx, clauses: set[str] | None = None) -> None:
                 ctx.ob("R-PREFIX-P1", key + " uses the pending prefix", f"{selfname}._prefix" in attrs,
                        "a block that starts a line must emit the container's first-line prefix (list marker, `> `, footnote label); "
                        "its text does not depend on self._prefix", where(m, m.node))
+            if "P1" in want:
+                # P1b: repeated lines (loop bodies) are continuation lines: they use the second prefix, never the pending one
+                for f in _with_helpers(prog, m):
+                    fl = prog.flow(f)
+                    sn = f.params[0]
+                    for h in fl.cfg.nodes:
+                        if h.kind != "for":
+                            continue
+                        for bn in fl.loop_body_nodes(h):
+                            for ex in fl.node_exprs(bn):
+                                for sub in walk_no_nested(ex):
+                                    if isinstance(sub, ast.Attribute) and isinstance(sub.ctx, ast.Load) and chain_key(sub) == f"{sn}._prefix":
+                                        ctx.ob("R-PREFIX-P1", f"{f.qual} :: line emitted in a loop uses the continuation prefix", False,
+                                               "lines produced in a loop are continuation lines of the block: they must be written under "
+                                               "self._second_prefix; self._prefix holds the first-line prefix (list marker) until consumed",
+                                               where(f, bn))
+                # the paragraph wrapper receives (text, first-line prefix, continuation prefix) in that order
+                for n, c in prog.flow(m).all_calls():
+                    if isinstance(c.func, ast.Attribute) and chain_key(c.func) == f"{selfname}._line_wrapper" and len(c.args) == 3:
+                        o1 = origins(prog, m, c.args[1], n)
+                        o2 = origins(prog, m, c.args[2], n)
+                        # ("def", "effect", key): the attribute may have been updated by the children rendered before
+                        o1 = frozenset(o for o in o1 if not (o[0] == "def" and o[1] == "effect"))
+                        o2 = frozenset(o for o in o2 if not (o[0] == "def" and o[1] == "effect"))
+                        ok12 = all(o[0] == "attr" and o[2] == "_prefix" for o in o1) and all(o[0] == "attr" and o[2] == "_second_prefix" for o in o2)
+                        ctx.ob("R-PREFIX-P1", f"{m.qual} :: line wrapper indents", ok12 and bool(o1) and bool(o2),
+                               "the line wrapper must get self._prefix as the first-line indent and self._second_prefix as the continuation indent",
+                               where(m, c))
             if "P2" in want:
                 ok, p = must_consume(ctx, m)
                 ctx.ob("R-PREFIX-P2", key + " consumes the prefix", ok,
